@@ -17,6 +17,22 @@ class HarnessError(Exception):
     pass
 
 
+def crash_to_violation(e):
+    """An exception that escapes run_case from *inside the code under test* (innermost frame in
+    allmydata/) on an input the property module considers valid is reported as a violation
+    (kind crash:<Type>@<module>.<function>); anything raised from harness code stays a harness error."""
+    tb = traceback.extract_tb(e.__traceback__)
+    if not tb:
+        return None
+    inner = tb[-1]
+    fn = inner.filename.replace("\\", "/")
+    if "/allmydata/" in fn and "/verif/" not in fn:
+        site = "%s.%s" % (fn.split("/allmydata/", 1)[1].replace("/", ".").rsplit(".py", 1)[0], inner.name)
+        chain = " <- ".join("%s:%d" % (f.name, f.lineno) for f in reversed(tb[-4:]))
+        return Violation("crash:%s@%s" % (type(e).__name__, site), "unexpected %s: %s  [%s]" % (type(e).__name__, str(e)[:300], chain), {"site": site, "exc": type(e).__name__})
+    return None
+
+
 def hx(b):
     return bytes(b).hex()
 
@@ -158,7 +174,16 @@ class Ctx:
         def t(case):
             ctx.begin_case()
             try:
-                run_case(case, ctx)
+                try:
+                    run_case(case, ctx)
+                except Violation:
+                    raise
+                except Exception as e:
+                    v = crash_to_violation(e)
+                    if v is None:
+                        raise
+                    if ctx.fail(v.kind, v.msg, **v.detail):
+                        return
             except Violation as v:
                 last["case"] = case
                 last["v"] = v
@@ -183,7 +208,15 @@ class Ctx:
         for case in cases:
             self.begin_case()
             try:
-                run_case(case, self)
+                try:
+                    run_case(case, self)
+                except Violation:
+                    raise
+                except Exception as e:
+                    v = crash_to_violation(e)
+                    if v is None:
+                        raise
+                    self.fail(v.kind, v.msg, **v.detail)
             except Violation as v:
                 self.violations.append({"case": case, "kind": v.kind, "msg": v.msg, "detail": jsonable(v.detail)})
                 return
@@ -399,7 +432,15 @@ def run_replay(prop_id, path):
     try:
         ctx.begin_case()
         try:
-            mod.run_case(case, ctx)
+            try:
+                mod.run_case(case, ctx)
+            except Violation:
+                raise
+            except Exception as e:
+                v = crash_to_violation(e)
+                if v is None:
+                    raise
+                ctx.fail(v.kind, v.msg, **v.detail)
         except Violation as v:
             print("  %s: %s" % (v.kind, v.msg[:2000]))
             print("VIOLATION property=%s replay=%s" % (prop_id, path))
